@@ -138,7 +138,9 @@ int32_t tls13ImportPublicValue(ssl_t *ssl,
 
             if (ssl->sec.eccKeyPub != NULL)
             {
-                psEccClearKey(ssl->sec.eccKeyPub);
+                /* psEccNewKey allocates: release the key of an earlier
+                   key_share entry, do not just clear it */
+                psEccDeleteKey(&ssl->sec.eccKeyPub);
             }
 
             rc = psEccNewKey(ssl->hsPool, &ssl->sec.eccKeyPub, curve);
@@ -174,6 +176,11 @@ int32_t tls13ImportPublicValue(ssl_t *ssl,
         psTraceInfo("Need USE_DH to be able to import DHE public values\n");
         goto out_internal_error;
 #   else
+        if (ssl->sec.dhKeyPub != NULL)
+        {
+            psDhClearKey(ssl->sec.dhKeyPub);
+            psFree(ssl->sec.dhKeyPub, ssl->hsPool);
+        }
         ssl->sec.dhKeyPub = psMalloc(ssl->hsPool,
                 sizeof(psDhKey_t));
         if (ssl->sec.dhKeyPub == NULL)
